@@ -8,9 +8,9 @@ flags, V observation, F env flags, R reward, L lower bound / max time, X error c
 CORE = "GTSOAXE"
 
 PROPS = {
-    "C01": dict(families=["ordered", "classic", "transport", "buffers", "setup", "outage", "stoch", "mixed"], kinds=CORE),
+    "C01": dict(families=["ordered", "classic", "transport", "buffers", "setup", "outage", "stoch", "mixed", "bigids"], kinds=CORE),
     "C02": dict(families=["classic", "setup", "outage", "stoch", "mixed", "shifted"], kinds=CORE),
-    "C03": dict(families=["ordered", "transport", "buffers", "mixed", "classic", "outage"], kinds=CORE),
+    "C03": dict(families=["ordered", "transport", "buffers", "mixed", "classic", "outage", "bigids"], kinds=CORE),
     "C04": dict(families=["classic", "transport", "mixed", "buffers"], kinds=CORE + "F"),
     "C05": dict(families=["ordered", "classic", "transport", "buffers", "outage", "stoch", "mixed"], kinds=CORE + "F"),
     "C06": dict(families=["classic"], kinds=CORE + "LFR"),
@@ -23,7 +23,7 @@ PROPS = {
     "C13": dict(families=["classic", "stoch", "mixed", "buffers"], kinds=CORE + "VFRL"),
     "C14": dict(families=["classic", "transport", "bigids", "mixed", "shifted", "buffers"], kinds="GBSOAVFXE"),
     "C15": dict(families=["classic", "transport", "bigids", "mixed", "buffers"], kinds="GBSOAVXE"),
-    "C16": dict(families=["classic", "transport", "buffers", "setup", "outage", "stoch", "mixed"], kinds="CGX"),
+    "C16": dict(families=["classic", "transport", "buffers", "setup", "outage", "stoch", "mixed", "bigids"], kinds="CGX"),
     "C17": dict(families=["classic", "transport", "buffers", "setup", "outage", "mixed", "bigids"], kinds="CGX"),
     "C18": dict(families=["classic", "transport", "mixed", "buffers"], kinds=CORE + "F"),
     "C19": dict(families=["classic", "transport", "mixed", "shifted"], kinds="GSOAFRLXE"),
